@@ -243,6 +243,7 @@ def run_history(ops: list[dict]) -> dict:
             if how == "append":
                 chosen = chosen[:1]
             bn, bv = snap()
+            foreign_at = [k for k, i in enumerate(chosen) if nodes[i].graph is not None and nodes[i].graph is not g]
             try:
                 if how == "append":
                     g.append(nodes[chosen[0]])
@@ -266,10 +267,10 @@ def run_history(ops: list[dict]) -> dict:
             for i in range(len(values)):
                 if bv[i] is not None and av[i] != bv[i]:
                     bad.append(f"{how}: explicit value name {bv[i]!r} changed to {av[i]!r}")
-            for i in chosen:
+            # nodes the graph has registered: all of them, or those before the first foreign node when it raised
+            processed = chosen if ok else chosen[:foreign_at[0]] if foreign_at else []
+            for i in processed:
                 n = nodes[i]
-                if n.graph is not g:
-                    continue
                 if bn[i] is None:
                     if n.name is None:
                         if ok:
@@ -375,7 +376,7 @@ def gen_model(rng, small: bool = False) -> dict:
             names = rng.sample(B_INIT_NAMES, rng.choice([0, 0, 1, 2, 2, 3] if not small else [0, 1, 2]))
             for nm in names:
                 if ins and rng.random() < 0.12 and st["vnames"][ins[0]] not in (None, "") \
-                        and ins[0] not in st["init_of"] and st["vnames"][ins[0]] not in [st["vnames"][i] for i in inits]:
+                        and ins[0] not in st["init_of"] and st["vnames"][ins[0]] not in names:
                     v = ins[0]          # the same Value is graph input and initializer
                 else:
                     v = new_value(nm)
